@@ -310,6 +310,20 @@ def _mk(args):
     return acts.make(a, inp, i)
 
 
+def rounds(ctx, gen_inputs, n):
+    """n independent draws of a property's input families (the generator's random parts differ per draw, its
+    enumerated parts repeat and are dropped): the thorough tier's way of widening every sampled family"""
+    out, seen = [], set()
+    for _ in range(max(1, n)):
+        for a, inp, key in gen_inputs(ctx):
+            k = (a, json.dumps(inp, sort_keys=True))
+            if k not in seen:
+                seen.add(k)
+                out.append((a, inp, key))
+    ctx.notes["input_rounds"] = max(1, n)
+    return out
+
+
 def build_events(ctx, inputs, start=0, procs=None):
     """inputs: iterable of (act, inp, class-key) -> events (executing the code under test).
     Events are built in worker processes (fork) when there are many; each event is a pure
